@@ -4,8 +4,12 @@ package main
 
 import (
 	"fmt"
+	"sync/atomic"
 	"testing/synctest"
 	"time"
+
+	"github.com/cbeuw/Cloak/internal/common"
+	mux "github.com/cbeuw/Cloak/internal/multiplex"
 )
 
 // C12 "all of the session's connections end up closed", for a connection that reaches the session late: the server finds
@@ -58,5 +62,62 @@ func c12lateConnection(c *ctx, k int) {
 		rg.propagate()
 		synctest.Wait()
 	})
+	c.o.case_(tag, true)
+}
+
+// the first connection of a session is being added (past its teardown test, parked at the schedule point inside addConn)
+// when the session is closed — the inactivity timer can do that on the server, whose first AddConnection comes after the
+// handshake reply.  The closing notice cannot be sent (there is no connection to send it on yet); the connection must end
+// up closed all the same.
+func c12closeWhileAdding(c *ctx, k int) {
+	r := c.r
+	method := byte(r.intn(4))
+	tag := fmt.Sprintf("close while the first connection is being added #%d method=%d", k, method)
+	// real goroutines (a goroutine waiting for a mutex is not "durably blocked" for synctest), steps separated by short sleeps
+	var key [32]byte
+	copy(key[:], r.bytes(32))
+	ob, err := mux.MakeObfuscator(method, key)
+	if err != nil {
+		panic(err)
+	}
+	sesh := mux.MakeSession(21, mux.SessionConfig{Obfuscator: ob, InactivityTimeout: time.Hour, MsgOnWireSizeLimit: 16401})
+	parked, release := make(chan struct{}), make(chan struct{})
+	var armed int32 = 1
+	common.SetVerifHook(func(label string) {
+		if label == "switchboard.addConn:between" && atomic.CompareAndSwapInt32(&armed, 1, 0) {
+			close(parked)
+			<-release
+		}
+	})
+	defer common.SetVerifHook(nil)
+	a, b := newPair("first")
+	added := make(chan struct{})
+	go func() { sesh.AddConnection(b); close(added) }()
+	select {
+	case <-parked:
+	case <-time.After(5 * time.Second):
+		c.o.N("C12 close while adding: the schedule point was not reached — case skipped")
+		return
+	}
+	closed := make(chan struct{})
+	go func() { sesh.Close(); close(closed) }()
+	time.Sleep(50 * time.Millisecond) // Close has set the closed flag and tried to send; it may be waiting for addConn's mutex now
+	close(release)
+	for _, ch := range []chan struct{}{closed, added} {
+		select {
+		case <-ch:
+		case <-time.After(20 * time.Second):
+			c.o.V("C12 close-did-not-return", map[string]any{"tag": tag})
+			return
+		}
+	}
+	time.Sleep(20 * time.Millisecond)
+	if !b.isClosed() {
+		c.o.V("C12 connection-left-open close-before-the-first-connection-was-added", map[string]any{"tag": tag,
+			"what": "Session.Close returned (its closing notice could not be sent: no connection yet) without sweeping the connections; the connection whose AddConnection was under way is stored, read from and never closed",
+			"replay": "MakeSession; AddConnection parked at switchboard.addConn:between; Session.Close(); release"})
+	}
+	a.kill()
+	b.kill()
 	c.o.case_(tag, true)
 }
